@@ -6,7 +6,7 @@
 (* the oracle (the contract is total on the generated space, the share of  *)
 (* unmodelled cases is bounded, its own invariants hold).                  *)
 (***************************************************************************)
-EXTENDS KvExec, Json
+EXTENDS KvExec, KvFold, Json
 
 CONSTANTS Mode,      \* "c01" | "c04" | "c05" | "c07" | "c08" | "c09" | "c10"
           Scale      \* 1 = quick, 2 = thorough
@@ -307,6 +307,9 @@ OracleOK ==
   /\ ModelledB(st, store, base) =>
        /\ \A x \in 1..Len(base) : Len(base[x]) = (IF st.fields = <<>> THEN 2 ELSE Len(st.fields))
        /\ st.order = <<>> => SelectOKB(st, base, IF st.lim.has THEN Take(base, st.lim.s, st.lim.n) ELSE base)
+  /\ Mode = "c04" =>       \* Design => Contract for the expression optimizer, on every pair of the case's store
+       \A x \in 1..Len(store) : /\ Preserves(st.where, store[x])
+                                /\ \A f \in 1..Len(st.fields) : Preserves(st.fields[f].e, store[x])
   /\ PrintT(ToJson([kind |-> "case", stmt |-> st, sid |-> cs.sid]))
 
 ASSUME \A sid \in StoreIds : PrintT(ToJson([kind |-> "store", sid |-> sid, store |-> StoreOf(sid)]))
